@@ -38,6 +38,9 @@ class Norm(ast.NodeTransformer):
         return node
 
 
+PRIVATE_OWN = {'_arctan2'}
+
+
 def functions(path):
     tree = ast.parse(open(path).read())
     aliases = set()
@@ -57,11 +60,38 @@ def functions(path):
                     raise Refuse('%s: module-level rebinding of %s' % (path, t.id))
     if not aliases:
         raise Refuse('%s: numpy import not found' % path)
-    out = {}
+    # module-level constants (NAME = expression): a definition that reads one is compared together with its value, otherwise two
+    # textually identical functions could differ through a constant that differs between the modules
+    consts = {}
+    for node in tree.body:
+        if isinstance(node, ast.Assign) and len(node.targets) == 1 and isinstance(node.targets[0], ast.Name):
+            v = Norm(aliases).visit(ast.parse(ast.unparse(node.value)).body[0])
+            consts[node.targets[0].id] = ast.dump(v, annotate_fields=True, include_attributes=False)
+    own_dump, calls, reads = {}, {}, {}
     for name, node in fns.items():
         n = Norm(aliases).visit(ast.parse(ast.unparse(node)).body[0])
-        out[name] = ast.dump(n, annotate_fields=True, include_attributes=False)
-    return out
+        own_dump[name] = ast.dump(n, annotate_fields=True, include_attributes=False)
+        ids = {x.id for x in ast.walk(node) if isinstance(x, ast.Name)}
+        calls[name] = sorted(i for i in ids if i in fns and i != name)
+        reads[name] = sorted(i for i in ids if i in consts and i not in ('logger',))
+    # CLOSURE: a definition is compared together with the private helpers it reaches (transitively).  A refactor that moves the
+    # 2*pi difference of a convention-dependent function into a private helper leaves the function "different"; one that splits an
+    # identical function into identical helpers leaves it "identical" -- the split of the API into identical / different definitions
+    # does not depend on where the helper boundaries are drawn.
+    def private(n_):
+        return n_.startswith('_') and n_ not in PRIVATE_OWN
+
+    def closure(name):
+        seen, todo = [], [c for c in calls[name] if private(c)]
+        while todo:
+            c = todo.pop()
+            if c not in seen:
+                seen.append(c)
+                todo += [d for d in calls[c] if private(d)]
+        cs = sorted(set(reads[name]).union(*[set(reads[c]) for c in seen]) if seen else set(reads[name]))
+        return (own_dump[name] + ''.join('|' + c + '=' + own_dump[c] for c in sorted(seen))
+                + ''.join('|const ' + c + '=' + consts[c] for c in cs))
+    return {name: (closure(name) if not private(name) else own_dump[name]) for name in fns}
 
 
 def write_if_changed(path, text):
@@ -74,9 +104,6 @@ def write_if_changed(path, text):
 
 def h(s):
     return int(hashlib.sha256(s.encode()).hexdigest(), 16)
-
-
-PRIVATE_OWN = {'_arctan2'}
 
 
 def main():
